@@ -311,6 +311,19 @@ fn run(ctx: &mut Ctx, rep: &mut Report, mode: Mode) {
             p.extend_from_slice(&(c as u16).to_be_bytes());
             p.extend_from_slice(&[0, 0, 0, 1, 0, 4, 1, 2, 3, 4]);
             sw.one("L2class", &p);
+            // every class x every type whose data the policy constrains x {no data, minimal valid data}
+            for (t, valid) in [(T_A, &[1u8, 2, 3, 4][..]), (T_NS, &[0][..]), (T_CNAME, &[0xc0, 12][..]), (T_SOA, &[0, 0, 0, 0, 0, 1, 0, 0, 0, 2, 0, 0, 0, 3, 0, 0, 0, 4, 0, 0, 0, 5][..]), (T_PTR, &[1, b'p', 0][..]), (T_MX, &[0, 5, 0][..]), (T_AAAA, &[0u8; 16][..]), (39, &[0][..]), (T_TXT, &[0][..])] {
+                for data in [&[][..], valid] {
+                    let mut p = base(0);
+                    p.extend_from_slice(&[0xc0, 12]);
+                    p.extend_from_slice(&t.to_be_bytes());
+                    p.extend_from_slice(&(c as u16).to_be_bytes());
+                    p.extend_from_slice(&[0, 0, 0, 1]);
+                    p.extend_from_slice(&(data.len() as u16).to_be_bytes());
+                    p.extend_from_slice(data);
+                    sw.one("L2class", &p);
+                }
+            }
         }
         for t in [T_A, T_AAAA] {
             for rdlen in 0..=40usize {
